@@ -2,6 +2,7 @@ package c18
 
 import (
 	"context"
+	"os"
 	"fmt"
 	"strings"
 	"testing"
@@ -18,7 +19,6 @@ import (
 	"verif/internal/harness"
 	"verif/internal/keys"
 	"verif/internal/reflog"
-	"verif/internal/world"
 )
 
 // ReconfStep is one (re)configuration of the SAME LogConfig message, followed by admissions.
@@ -122,9 +122,18 @@ func checkReconf(t *testing.T, c ReconfCase) (v harness.Verdict) {
 	if c.Now == (Inst{S: minTS}) {
 		c.Now.N = 1
 	}
+	var allProbes []Inst
+	for _, s := range c.Steps {
+		allProbes = append(allProbes, s.Probes...)
+	}
+	pool, trusted := trustFor(c.Chain, secsOf(allProbes))
 	var ders [][]byte
-	for _, r := range world.Roots() {
+	for _, r := range trusted {
 		ders = append(ders, r.DER)
+	}
+	if c.Chain.Lone {
+		v.Class("chain:lone-root")
+		defer os.Remove(ctfex.RootsFile(ders))
 	}
 	// the one message object that lives through the whole case
 	cfg := &configpb.LogConfig{LogId: 6962, Prefix: "log", PrivateKey: ctfex.PrivKeyAny(keys.Pick("p256", 1)), RootsPemFile: []string{ctfex.RootsFile(ders)}}
@@ -158,7 +167,7 @@ func checkReconf(t *testing.T, c ReconfCase) (v harness.Verdict) {
 			return v
 		}
 		pol := Policy{Expiry: s.Expiry, Now: c.Now, Margin: 1}
-		opts := ctfe.NewCertValidationOpts(roots(), c.Now.Time(), vc.Config.RejectExpired, vc.Config.RejectUnexpired, vc.NotAfterStart, vc.NotAfterLimit, vc.Config.AcceptOnlyCa, vc.KeyUsages)
+		opts := ctfe.NewCertValidationOpts(pool, c.Now.Time(), vc.Config.RejectExpired, vc.Config.RejectUnexpired, vc.NotAfterStart, vc.NotAfterLimit, vc.Config.AcceptOnlyCa, vc.KeyUsages)
 		var inst *ctfex.Instance
 		var be *reflog.Log
 		if s.Instance {
